@@ -1148,3 +1148,32 @@ where S: Observable<Item, Err, O, Unsub = ()>, O: Observer<Item, Err> {
     self.source.actual_subscribe(observer)
   }
 }
+
+// ---------------------------------------------------------------- C03.S13
+/// a two-phase flag that starts in its final state
+pub struct PreCompleted<O> { observer: Option<O>, completed_one: bool }
+impl<O> PreCompleted<O> { pub fn new(observer: O) -> Self { PreCompleted { observer: Some(observer), completed_one: true } } }
+impl<Item, Err, O: Observer<Item, Err>> Observer<Item, Err> for PreCompleted<O> {
+  fn next(&mut self, value: Item) { if let Some(o) = self.observer.as_mut() { o.next(value) } }
+  fn error(mut self, err: Err) { if let Some(o) = self.observer.take() { o.error(err) } }
+  fn complete(mut self) {
+    if self.completed_one { if let Some(o) = self.observer.take() { o.complete() } } else { self.completed_one = true; }
+  }
+  fn is_finished(&self) -> bool { self.observer.as_ref().map_or(true, |o| o.is_finished()) }
+}
+
+// ---------------------------------------------------------------- C10.L8
+/// test-and-set of a shared flag in two critical sections
+pub struct SplitFlag<O> { observer: Option<O>, done_one: bool }
+impl<Item, Err, O: Observer<Item, Err>> Observer<Item, Err> for MutArc<SplitFlag<O>> {
+  fn next(&mut self, value: Item) { if let Some(o) = self.rc_deref_mut().observer.as_mut() { o.next(value) } }
+  fn error(self, err: Err) { if let Some(o) = self.rc_deref_mut().observer.take() { o.error(err) } }
+  fn complete(self) {
+    if !self.rc_deref().done_one {
+      self.rc_deref_mut().done_one = true;
+    } else if let Some(o) = self.rc_deref_mut().observer.take() {
+      o.complete()
+    }
+  }
+  fn is_finished(&self) -> bool { self.rc_deref().observer.as_ref().map_or(true, |o| o.is_finished()) }
+}
